@@ -282,3 +282,11 @@ func saveRunning(property, partName string, c interface{}) {
 	os.MkdirAll(dir, 0o755)
 	os.WriteFile(filepath.Join(dir, "running.json"), b, 0o644)
 }
+
+// inconclusive records a watchdog expiry that the goroutine dump cannot turn into a verdict:
+// never a violation; the driver reports exit code 2 for the run.
+func inconclusive(property, partName, what string) {
+	st := stats.For(property, partName)
+	st.Label("inconclusive_watchdog", 1)
+	st.Note("inconclusive: " + what)
+}
